@@ -1,0 +1,188 @@
+//! Verification hooks, only compiled with `--cfg petrichorit_des_verif`.
+//!
+//! Nothing in here changes the behaviour of the queue: the functions are read-only
+//! walks over the internal structure, an observer for allocator events, a counter
+//! for the bucket scan and a constructor with an explicit allocator page size.
+
+use super::{CQueue, CQueueLLAllocatorInner, DualLinkedList};
+use std::{cell::RefCell, collections::VecDeque, time::Duration};
+
+/// An event of the internal page allocator.
+#[derive(Debug, Clone, Copy, PartialEq, Eq)]
+pub enum AllocEvent {
+    /// The allocator `alloc` obtained a new page.
+    Page { alloc: usize, addr: usize, len: usize },
+    /// The allocator handed out a region (size / align after internal adjustment).
+    Alloc {
+        alloc: usize,
+        addr: usize,
+        size: usize,
+        align: usize,
+        req_size: usize,
+        req_align: usize,
+    },
+    /// A region was handed back to the allocator.
+    Free { alloc: usize, addr: usize, size: usize },
+    /// The allocator returns a page to the system (on drop).
+    ReleasePage { alloc: usize, addr: usize, len: usize },
+}
+
+type Observer = Box<dyn FnMut(AllocEvent)>;
+
+thread_local! {
+    static ALLOC_OBSERVER: RefCell<Option<Observer>> = const { RefCell::new(None) };
+    static SCAN: RefCell<(u64, Option<u64>)> = const { RefCell::new((0, None)) };
+}
+
+/// Installs (or removes) the allocator observer of this thread, returning the previous one.
+pub fn set_alloc_observer(observer: Option<Observer>) -> Option<Observer> {
+    ALLOC_OBSERVER.with(|cell| std::mem::replace(&mut *cell.borrow_mut(), observer))
+}
+
+pub(super) fn alloc_event(event: AllocEvent) {
+    ALLOC_OBSERVER.with(|cell| {
+        // try_borrow: an observer must never allocate from a queue, but do not panic if it does
+        if let Ok(mut guard) = cell.try_borrow_mut() {
+            if let Some(observer) = guard.as_mut() {
+                observer(event);
+            }
+        }
+    });
+}
+
+/// Resets the scan step counter and sets a limit. A bucket scan (`fetch_next`, `peek_time`)
+/// that takes more steps than the limit since the last reset panics, instead of spinning.
+pub fn scan_reset(limit: Option<u64>) {
+    SCAN.with(|cell| *cell.borrow_mut() = (0, limit));
+}
+
+/// Returns the number of scan steps since the last reset.
+#[must_use]
+pub fn scan_steps() -> u64 {
+    SCAN.with(|cell| cell.borrow().0)
+}
+
+pub(super) fn scan_step() {
+    SCAN.with(|cell| {
+        let mut scan = cell.borrow_mut();
+        scan.0 += 1;
+        if let Some(limit) = scan.1 {
+            assert!(
+                scan.0 <= limit,
+                "verif: bucket scan exceeded the step limit of {limit}"
+            );
+        }
+    });
+}
+
+/// A read-only copy of the queues internal state.
+#[derive(Debug, Clone, PartialEq, Eq)]
+pub struct VerifSnapshot {
+    pub n: usize,
+    pub t: Duration,
+    pub head: usize,
+    pub t_current: Duration,
+    pub t0: Duration,
+    pub t1: Duration,
+    pub len: usize,
+    /// (time, id) of the entries in the zero-event bucket, in order.
+    pub zero: Vec<(Duration, usize)>,
+    /// (time, id, node address) of the entries of each bucket, in list order.
+    pub buckets: Vec<Vec<(Duration, usize, usize)>>,
+}
+
+impl<E> CQueue<E> {
+    /// Creates a queue whose allocator uses pages of the given size.
+    #[must_use]
+    pub fn verif_with_page_size(n: usize, t: Duration, page_size: usize) -> Self {
+        let t_all = t.as_nanos() * n as u128;
+        let mut alloc = Box::new(CQueueLLAllocatorInner::with_page_size(page_size));
+        Self {
+            n,
+            t_nanos: t.as_nanos(),
+            t,
+            zero_event_bucket: VecDeque::with_capacity(64),
+            buckets: std::iter::repeat_with(|| DualLinkedList::new(alloc.handle()))
+                .take(n)
+                .collect(),
+            head: 0,
+            t_current: Duration::ZERO,
+            t0: Duration::ZERO,
+            t1: t,
+            t_all,
+            alloc,
+            event_id: 0,
+            len: 0,
+        }
+    }
+
+    /// Walks the complete structure and checks its invariants.
+    ///
+    /// # Errors
+    ///
+    /// Returns a description of the first broken invariant.
+    pub fn verif_check(&self) -> Result<VerifSnapshot, String> {
+        let mut buckets = Vec::with_capacity(self.n);
+        let mut total = self.zero_event_bucket.len();
+
+        if self.buckets.len() != self.n {
+            return Err(format!("{} buckets for n = {}", self.buckets.len(), self.n));
+        }
+        if self.t1 != self.t0 + self.t {
+            return Err(format!("window [{:?}, {:?}] is not one bucket wide", self.t0, self.t1));
+        }
+        if self.t_nanos > 0 && (self.t0.as_nanos() / self.t_nanos) % (self.n as u128) != self.head as u128 {
+            return Err(format!("head = {} does not match window start {:?}", self.head, self.t0));
+        }
+
+        for (i, bucket) in self.buckets.iter().enumerate() {
+            let nodes = bucket
+                .verif_walk()
+                .map_err(|e| format!("bucket {i}: {e}"))?;
+            if nodes.len() != bucket.len() {
+                return Err(format!("bucket {i}: len mismatch"));
+            }
+            for (time, id, _) in &nodes {
+                let index = ((time.as_nanos() % self.t_all) / self.t_nanos) as usize % self.n;
+                if index != i {
+                    return Err(format!(
+                        "bucket {i}: event #{id} with time {time:?} belongs into bucket {index}"
+                    ));
+                }
+                if *time < self.t_current {
+                    return Err(format!(
+                        "bucket {i}: event #{id} with time {time:?} is older than the current time {:?}",
+                        self.t_current
+                    ));
+                }
+            }
+            total += nodes.len();
+            buckets.push(nodes);
+        }
+
+        for (_, time, id) in &self.zero_event_bucket {
+            if *time != self.t_current {
+                return Err(format!(
+                    "zero bucket: event #{id} with time {time:?} != current time {:?}",
+                    self.t_current
+                ));
+            }
+        }
+
+        if total != self.len {
+            return Err(format!("len = {} but {} events stored", self.len, total));
+        }
+
+        Ok(VerifSnapshot {
+            n: self.n,
+            t: self.t,
+            head: self.head,
+            t_current: self.t_current,
+            t0: self.t0,
+            t1: self.t1,
+            len: self.len,
+            zero: self.zero_event_bucket.iter().map(|v| (v.1, v.2)).collect(),
+            buckets,
+        })
+    }
+}
